@@ -112,6 +112,11 @@ class InMemoryObjectStore(BaseObjectStore):
                 f'Name "{name}" already in {self._cim_object_type} '
                 'object store')
         # Add with deepcopy to completely isolate the copy in the repository
+        if self._copy_names:
+            # The name is a mutable CIMInstanceName object that the caller
+            # may still hold and modify (e.g. CreateInstance returns the path
+            # to its caller), so the dictionary key must be a copy as well.
+            name = deepcopy(name)
         self._data[name] = deepcopy(cim_object)
 
     def update(self, name, cim_object):
